@@ -19,7 +19,7 @@ RULE = (
     "bit and a random value; boundary values inside the set must be accepted, values outside must raise "
     "ValueConstraintViolatedError for exactly that field (path, declared type, integer, allowed set probed at every pinned "
     "interval end point +-1) with the events of all earlier fields and none for the offending one; thorough: also two bad "
-    "leaves at once (the first must be reported); distinct = distinct (type/code, leaf path, perturbation) cases"
+    "leaves at once (the first must be reported); successful responses decoded with reserved command codes (no layout): a value error naming the code, after events that are a prefix of the decode with the real code and account for every consumed byte; distinct = distinct (type/code, leaf path, perturbation) cases"
 )
 ASSUMPTIONS = ["pinned allowed sets; the allowed set of an error is compared by membership at the pinned interval end points +-1, not enumerated"]
 KINDS = oracles.VALUE_KINDS
@@ -68,6 +68,8 @@ def run_shard(shard, rec):
                     rec.case(("corpus-bad", base.sig))
                 continue
             rec.count("bases")
+            if base.t == "Response" and len(base.d) > 10 and base.d[6:10] == b"\0\0\0\0":
+                unknown_cc_responses(base, rec, rng)
             for fc in cases.value_faults(base, bref, rng, limit=None if thorough else 5, second=thorough):
                 ref, t, kind = _strict.evaluate(fc, rec, KINDS, iff_value=True)
                 rec.case(fc.sig, nontrivial=True)
@@ -85,18 +87,55 @@ def run_shard(shard, rec):
                     rec.sample(dict(case=fc.short(), reference=kind, decoder=t.okind()), bucket="sample_accepted", cap=2)
 
 
+def unknown_cc_responses(base, rec, rng):
+    """A successful response decoded with a command code that has no layout (reserved number): the layout of the body is
+    unknowable, so strict mode must reject with a value error naming the code - after the events of every field it has
+    consumed.  Oracle without a position of its own: the events must be a prefix of the events of the same bytes decoded
+    with their real code (the header does not depend on the code), and emitted field bytes + remaining bytes = input."""
+    from .. import trace as TR
+
+    known = set(int(c) for c in layout.pinned()["command_codes"].values())
+    good = TR.run(base.t, base.d, strict=True, cc=base.cc, enc=base.enc)
+    if good.outcome[0] != "ok":
+        return
+    for cc in rng.sample([c for c in (0x123, 0x0, 0xFFFFFFFF, 0x11E, 0x1FF, 0x20000123, 0x7FFFFFFF) if c not in known], 2):
+        t = TR.run(base.t, base.d, strict=True, cc=cc, enc=base.enc)
+        rec.count("unknown_cc_responses")
+        rec.case(("unknown-cc-response", base.sig, cc), nontrivial=True)
+        rep = dict(base.replay(), cc=cc, family="unknown-cc-response", real_cc=base.cc)
+        o = t.outcome
+        if o[0] != "constraint" or o[1]["cls"] != "ValueConstraintViolatedError" or o[1].get("tname") != "TPM_CC" or o[1].get("value") != cc:
+            rec.violation("unknown-cc-response", "outcome", f"{base.short()}\ndecoded with the reserved command code {cc:#x}: expected ValueConstraintViolatedError(TPM_CC, {cc:#x}), got {o}", rep)
+            continue
+        sig = lambda es: [(e.kind, e.path, e.tname, e.value) for e in es]
+        if sig(t.events) != sig(good.events)[: len(t.events)]:
+            rec.violation("unknown-cc-response", "events-not-a-prefix", f"{base.short()}\ndecoded with the reserved command code {cc:#x}: events {t.events} are not a prefix of the events with the real code {good.events[:6]}", rep)
+            continue
+        shown = sum(len(e.chunk) for e in t.mevents if isinstance(e.chunk, bytes))
+        rem = o[1].get("rem")
+        if not isinstance(rem, bytes) or shown + len(rem) != len(base.d) or base.d[shown:] != rem:
+            rec.violation("unknown-cc-response", "events-before", f"{base.short()}\ndecoded with the reserved command code {cc:#x}: {shown} bytes are shown in the {len(t.events)} events emitted before the error "
+                                                                  f"({[TR.pstr(e.path) for e in t.events]}) and {len(rem) if isinstance(rem, bytes) else rem} bytes remain, the input has {len(base.d)}: a consumed field has no event", rep)
+
+
 def finish(m, tier):
     inc = probes.missing(m, ANCHORS)
     if not m["counters"].get("ref_value"):
         inc.append("no case in which the reference expects a value error")
     if not m["counters"].get("valid_boundary_kept"):
         inc.append("no valid boundary value was kept")
+    if not m["counters"].get("unknown_cc_responses"):
+        inc.append("no successful response was decoded with a reserved command code")
     if not m["counters"].get("fault_on_commandCode"):
         inc.append("no reserved command code case")
     return dict(inconclusive=inc)
 
 
 def replay(r, rec):
+    if r.get("family") == "unknown-cc-response":
+        base = cases.Case.from_replay(dict(r, cc=r["real_cc"]))
+        unknown_cc_responses(base, rec, random.Random(0))
+        return
     case = cases.Case.from_replay(r)
     ref, t, kind = _strict.evaluate(case, rec, KINDS, iff_value=True)
     if kind in KINDS:
